@@ -67,6 +67,8 @@ def short_fn(name):
         return '-'
     s = name.replace("<'a, State, D, C>", '').replace('<T, CUTSET_TYPE>', '').replace('<T>', '')
     s = s.replace('implementation::', '').replace('abstraction::', '')
+    while '::::' in s:
+        s = s.replace('::::', '::')
     return s
 
 
